@@ -67,9 +67,13 @@ def run(cmd, cwd=None, inp=None, timeout=None):
 # ------------------------------------------------------------------ translators
 
 
+TRANSLATOR_NOTES = []  # soft notes of the last run_translators() call (not obligations)
+
+
 def run_translators():
     """Regenerate every Gen file from the repo. Returns (ok, problems:list[str], files:dict)."""
     sys.path.insert(0, os.path.join(VERIF, "translate"))
+    del TRANSLATOR_NOTES[:]
     problems = []
     files = {}
     for modname in ("dsl2lean", "tags2lean", "consts2lean", "globals2lean", "enc2lean"):
@@ -82,6 +86,8 @@ def run_translators():
         except Exception as e:  # translator refuses: obligation broken
             problems.append(f"{modname}: {e}")
             continue
+        for note in getattr(mod, "NOTES", []):
+            TRANSLATOR_NOTES.append(f"{modname}: {note}")
         for rel, content in outs.items():
             dst = os.path.join(LEAN, "LolHtml", "Gen", rel)
             old = open(dst).read() if os.path.exists(dst) else None
@@ -91,6 +97,59 @@ def run_translators():
                     f.write(content)
             files[rel] = hashlib.sha256(content.encode()).hexdigest()[:16]
     return (not problems), problems, files
+
+
+GEN_OF = {"dsl2lean": "Syntax", "tags2lean": "Tags", "consts2lean": "Consts", "globals2lean": "Globals", "enc2lean": "Encodings"}
+
+
+def lean_import_closure(modules):
+    """Transitive `import LolHtml.*` closure of the given Lean modules (by reading the sources)."""
+    seen = set()
+    todo = list(modules)
+    while todo:
+        m = todo.pop()
+        if m in seen or not m.startswith("LolHtml"):
+            continue
+        seen.add(m)
+        path = os.path.join(LEAN, *m.split(".")) + ".lean"
+        try:
+            src = open(path).read()
+        except OSError:
+            continue  # a Gen file that does not exist yet
+        for mm in re.finditer(r"^import\s+(\S+)", src, re.M):
+            todo.append(mm.group(1))
+    return seen
+
+
+def lane_modules(lanes):
+    """Lean modules of the model side of the given lanes (from Lane/All.lean's registry)."""
+    try:
+        reg = open(os.path.join(LEAN, "LolHtml", "Lane", "All.lean")).read()
+    except OSError:
+        return []
+    out = []
+    for lu in lanes:
+        if lu.get("impl_only"):
+            continue
+        m = re.search(r'\("%s",\s*([A-Za-z0-9_.]+)\.run' % re.escape(lu["lane"]), reg)
+        if m:
+            out.append("LolHtml.Lane." + m.group(1).split(".")[0])
+        else:
+            out.append("LolHtml.Lane.All")
+    return out
+
+
+def relevant_translator_problems(problems, P):
+    """A translator that no longer recognises the source breaks exactly the properties whose theorems or
+    lane models import the table it generates (e.g. the tag tables do not enter the memory theorems)."""
+    closure = lean_import_closure(list(P["thm_modules"]) + lane_modules(P["lanes"]))
+    rel = []
+    for p in problems:
+        t = p.split(":", 1)[0]
+        gen = GEN_OF.get(t)
+        if gen is None or ("LolHtml.Gen." + gen) in closure:
+            rel.append(p)
+    return rel
 
 
 # ------------------------------------------------------------------ lean build + audit
